@@ -1162,6 +1162,8 @@ impl Interpreter {
                             if vm.inject_exception(self, error_msg.clone()) {
                                 self.active_vm = Some(Box::new(vm));
                             } else {
+                                // The run is over: leave its environment like any other failed run
+                                self.abandon_active_execution();
                                 let guarded = Guarded::from_value(error_msg, &self.heap);
                                 return Err(JsError::thrown(guarded));
                             }
@@ -1218,6 +1220,8 @@ impl Interpreter {
                                 if vm.inject_exception(self, result_value.clone()) {
                                     self.active_vm = Some(Box::new(vm));
                                 } else {
+                                    // The run is over: leave its environment like any other failed run
+                                    self.abandon_active_execution();
                                     let guarded = Guarded::from_value(result_value, &self.heap);
                                     return Err(JsError::thrown(guarded));
                                 }
